@@ -99,6 +99,38 @@ int main(int argc, char **argv) {
                cell.is_single_cell() ? 1 : 0);
       }
       printf("S " HX "\n", d2b(vsum));
+    } else if (op == "B") {
+      // neighbour pointers after set_ngbs: for every single cell its box and, per direction, the neighbour's level,
+      // single-cell flag, whether the neighbour points back to this cell, and the neighbour's box
+      long px, py, pz;
+      std::cin >> px >> py >> pz;
+      grid->set_ngbs(CoordinateVector< bool >(px != 0, py != 0, pz != 0));
+      const size_t ncell = grid->get_number_of_cells();
+      std::vector< uint64_t > keys;
+      uint64_t key = grid->get_first_key();
+      while (key != grid->get_max_key() && keys.size() < ncell + 1) {
+        keys.push_back(key);
+        key = grid->get_next_key(key);
+      }
+      printf("B %zu\n", keys.size());
+      for (size_t i = 0; i < keys.size(); ++i) {
+        AMRGridCell< double > &cell = (*grid)[keys[i]];
+        printf("b %" PRIu64 " %d", keys[i], (int)cell.get_level());
+        print_geometry(cell.get_geometry());
+        for (int d = 0; d < 6; ++d) {
+          AMRGridCell< double > *ngb = cell.get_ngb((AMRNgbPosition)d);
+          if (ngb == nullptr) {
+            printf(" N");
+          } else {
+            const Box<> b = ngb->get_geometry();
+            printf(" %d,%d,%d," HX "," HX "," HX "," HX "," HX "," HX, (int)ngb->get_level(), ngb->is_single_cell() ? 1 : 0,
+                   ngb->get_ngb((AMRNgbPosition)(d ^ 1)) == &cell ? 1 : 0, d2b(b.get_anchor().x()), d2b(b.get_anchor().y()),
+                   d2b(b.get_anchor().z()), d2b(b.get_sides().x()), d2b(b.get_sides().y()), d2b(b.get_sides().z()));
+          }
+        }
+        printf("\n");
+      }
+      printf("T\n");
     } else if (op == "K") {
       long x, y, z;
       std::cin >> x >> y >> z;
